@@ -231,3 +231,82 @@ Section Sequential.
     - injection Hgen as <-. apply merge_none in Em. subst tl. destruct fs; [reflexivity | discriminate].
   Qed.
 End Sequential.
+
+(* the counterpart without feedback (stale = false: new without -getset, enum, rest, map): the overlay stays empty, so
+   every type of the all-in-one run is analysed against the directory as it was found -- no guard on embedding *)
+Section SameDir.
+  Context {St Data : Type}.
+  Variable mk : cmd -> St -> pview -> string -> mres Data St.
+  Variable render : St -> Data -> afile.
+  Hypothesis Hmake : forall c st1 st2 v T, same_out render (mk c st1 v T) (mk c st2 v T).
+  Variable lt : view -> list string.
+  Variable c : cmd.
+  Variable cT : string -> cmd.
+  Hypothesis Hsim : forall T st v, sim_body render render (mk c st v T) (mk (cT T) st v T).
+  Hypothesis Hnostale : forall st v T d s st', mk c st v T = MOk d s st' -> s = false.
+  Variable hw : list hfile.
+  Variable disk : gfiles.
+  Variable fmap : list (string * string).
+  Hypothesis Hsep : separate c = false.
+
+  (* -type=T for every type, each in a directory holding the same files the all-in-one run found *)
+  Fixpoint same_dir_files (st : St) (types : list string) : list afile :=
+    match types with
+    | [] => []
+    | T :: r =>
+        match single_step mk render cT hw st T disk with
+        | Some (Some f) => f :: same_dir_files st r
+        | _ => same_dir_files st r
+        end
+    end.
+
+  Lemma same_dir_vs_loop : forall st0 st types sm sl sm' sl' ov',
+    pure_loop (mk c) render c hw disk st0 types fmap [] sm sl = Some (sm', sl', ov') ->
+    exists tl, sl' = (sl ++ tl)%list /\ map body tl = map body (same_dir_files st types).
+  Proof.
+    intros st0 st. induction types as [|T r IH]; intros sm sl sm' sl' ov' H; cbn [pure_loop same_dir_files] in *.
+    - injection H as _ <- _. exists []. rewrite app_nil_r. auto.
+    - unfold single_step.
+      pose proof (Hsim T st0 (pview_of (mk_view hw disk []))) as Hs.
+      pose proof (Hmake (cT T) st0 st (pview_of (mk_view hw disk [])) T) as Hm.
+      destruct (mk c st0 (pview_of (mk_view hw disk [])) T) as [d1 s1 st1|st1|] eqn:E1; [| |discriminate].
+      + pose proof (Hnostale _ _ _ _ _ _ E1) as ->. cbn [andb] in H. rewrite Hsep in H.
+        destruct (IH _ _ _ _ _ H) as [tl [Hsl Htl]].
+        destruct (mk (cT T) st0 (pview_of (mk_view hw disk [])) T) as [d2 s2 st2|st2|] eqn:E2; cbn in Hs; try contradiction.
+        destruct (mk (cT T) st (pview_of (mk_view hw disk [])) T) as [d3 s3 st3|st3|] eqn:E3; cbn in Hm; try contradiction.
+        destruct Hs as [_ Hb]. destruct Hm as [-> [-> Hr]].
+        exists (render st1 d1 :: tl). split; [rewrite Hsl, <- app_assoc; reflexivity|].
+        cbn. rewrite Hb, Hr, Htl. reflexivity.
+      + destruct (IH _ _ _ _ _ H) as [tl [Hsl Htl]]. exists tl. split; auto. rewrite Htl.
+        destruct (mk (cT T) st0 (pview_of (mk_view hw disk [])) T) as [d2 s2 st2|st2|] eqn:E2; cbn in Hs; try contradiction;
+          destruct (mk (cT T) st (pview_of (mk_view hw disk [])) T) as [d3 s3 st3|st3|] eqn:E3; cbn in Hm; try contradiction; reflexivity.
+  Qed.
+
+  Theorem aio_is_concat_same_dir : forall o st st' types sm,
+    confirm_types lt c o (mk_view hw disk []) = Some (types, fmap) ->
+    generate (mk c) render lt c o hw disk st = Some sm ->
+    let fs := same_dir_files st' types in
+    match sm with
+    | [] => fs = []
+    | [(n, m)] =>
+        a_decls m = flat_map a_decls fs /\ a_imports m = dedup (flat_map a_imports fs) /\
+        a_stray m = flat_map (fun f => strays (a_decls f)) fs /\ n = nm c hw fmap ""
+    | _ => False
+    end.
+  Proof.
+    intros o st st' types sm Hconf Hgen fs. unfold generate in Hgen. rewrite Hconf in Hgen.
+    pose proof (gen_loop_pure (mk c) render (Hmake c) c hw disk st types fmap st [] [] []) as Hp.
+    destruct (gen_loop (mk c) render c hw disk types fmap st [] [] []) as [[[[sm1 sl1] ov1] s1]|]; [|discriminate].
+    cbn in Hp. symmetry in Hp.
+    destruct (same_dir_vs_loop st st' types [] [] sm1 sl1 ov1 Hp) as [tl [Hsl Htl]]. cbn in Hsl. subst sl1.
+    assert (Hsm1 : sm1 = []) by (eapply (pure_loop_sm_unchanged mk render c hw disk fmap Hsep); exact Hp).
+    subst sm1. fold fs in Htl.
+    destruct (map_body_flat _ _ Htl) as [Hd [Hi Hst]].
+    destruct (merge tl) as [m|] eqn:Em.
+    - injection Hgen as <-. cbn [upsert]. rewrite (merge_decls _ _ Em), (merge_imports _ _ Em), Hd, Hi.
+      repeat split; auto.
+      + destruct tl as [|f0 fs0]; [discriminate|]. cbn in Em. injection Em as <-. cbn [a_stray]. exact Hst.
+      + rewrite all_in_one_file_mk_view. reflexivity.
+    - injection Hgen as <-. apply merge_none in Em. subst tl. destruct fs; [reflexivity | discriminate].
+  Qed.
+End SameDir.
